@@ -226,7 +226,17 @@ func c18Case(c *core.Ctx, id string) {
 	switch variant {
 	case "missing-dependency":
 		t := ts[r.IntN(len(ts))]
-		t.Deps = append(t.Deps, "//:nonexistent")
+		// the missing label resembles nothing, or is a near miss of an existing one (a typo, a digit more, the right name
+		// in another package): error messages with a suggestion take another path
+		near := ts[r.IntN(len(ts))].Label()
+		i := strings.LastIndex(near, ":")
+		cands := []string{"//:nonexistent", near + "x", near[:i+1] + "x" + near[i+1:], near[:len(near)-1], "//zz" + near[i:], near[:i+1] + strings.ToUpper(near[i+1:])}
+		miss := cands[r.IntN(len(cands))]
+		if p.Target(miss) != nil || strings.HasSuffix(miss, ":") {
+			miss = "//:nonexistent"
+		}
+		t.Deps = append(t.Deps, miss)
+		c.Count("missing_dependency_labels:"+map[bool]string{true: "unlike-any-target", false: "near-miss-of-a-target"}[miss == "//:nonexistent"], 1)
 	case "cycle":
 		a := ts[r.IntN(len(ts))]
 		if len(a.Deps) > 0 {
